@@ -181,6 +181,12 @@ def run(facts, rep, tier, ctx):
                ", ".join(shapes) if okn else
                "the normaliser returns %s: more than the one leading '/' is removed (or something else is computed), so paths "
                "like \"/a.txt/\" or \"//a.txt\" name an entry here but nothing on a physical folder" % ", ".join(shapes), nf.span)
+        # ... and it refuses nothing: whether a name is there is decided by the index lookups that follow, for every path string (a
+        # length limit, a character test here answers Err where a physical folder answers "absent" — or has the entry)
+        errs = [bb for ct, _, bb in cases if inter.case_polarity(ct) != "ok"]
+        rep.ob("R18.3", nf.id, "the normalising step refuses no path", not errs, "" if not errs else
+               "the normaliser can return an error: exists / metadata / open_file / read_dir fail for paths a physical filesystem on the "
+               "same folder answers for", nf.blocks[errs[0]].term.line if errs else nf.span)
     # exists / read_dir are decided by the two index maps alone: asking the embedded data itself (RustEmbed::get resolves
     # backslashes, `..`, and — in debug builds — the disk) gives answers the listings and metadata do not share
     for m in ("exists", "read_dir"):
